@@ -212,6 +212,16 @@ void H::nested(int obj, int arg)
   if (m) m->v(arg); else if (it->second.kind == 'N') it->second.n->v(arg);
 }
 
+void H::nestedf(int obj, int arg)
+{
+  H::emit("N{ %d %d", obj, arg);
+  auto it = g_objs.find(obj);
+  if (it == g_objs.end()) { H::emit("N} noobj"); return; }
+  MockM* m = as_m(it->second);
+  struct Close { ~Close() { H::emit("N}"); } } close;
+  if (m) (void)m->f(arg); else if (it->second.kind == 'N') (void)it->second.n->f(arg);
+}
+
 void H::destroy(int obj)
 {
   // from inside a side effect: the object is destroyed while one of its mock functions is executing
@@ -426,6 +436,7 @@ static void exec_op(std::vector<std::string> const& t, std::string const& line)
       else if (k == "se2") p->se[2] = static_cast<int>(v);
       else if (k == "nobj") p->nest_obj = static_cast<int>(v);
       else if (k == "narg") p->nest_arg = static_cast<int>(v);
+      else if (k == "nfn") p->nest_fn = static_cast<int>(v);
       else if (k == "dop") p->dop = static_cast<int>(v);
       else if (k == "lo") p->lo = static_cast<unsigned long>(v);
       else if (k == "hi") p->hi = v < 0 ? ~0UL : static_cast<unsigned long>(v);
